@@ -4,4 +4,4 @@ Extraction Language OCaml.
 Extraction "model.ml"
   xb_zadd xb_zmul xb_zdiv xb_zmod xb_zopp xb_zltb xb_nadd xb_nmul xb_ndiv xb_nmod xb_z_of_n xb_n_of_z xb_n_of_nat xb_nat_of_n xb_keep
   C03_closeWaitIterations C03_closeWaitTickNs
-  current_cfg prefix_cfg init step run canonical read_all predict outcome_of segments_read close_wait_iterations.
+  current_cfg prefix_cfg init step run canonical read_all drain deliver_eager predict outcome_of segments_read close_wait_iterations.
